@@ -81,13 +81,13 @@ def tryAsArrayThenConvert {α : Type} (f : Value → Res α) (v : Value) : Res (
   | .panic p => .panic p
 
 /-- `CoseSign::from_cbor_value` -/
-def CoseSign.fromValue (fuel : Nat) (v : Value) : Res CoseSign :=
+def CoseSign.fromValue (v : Value) : Res CoseSign :=
   match tryAsArray v with
   | .ok a =>
     if Gen.CoseSign_arityBad a.length then .err .unexpectedItem else
     match vremove a (Gen.CoseSign_removes.getD 0 99) with
     | .ok (x3, a) =>
-      match tryAsArrayThenConvert (fun v => (CoseSignature.fromValue fuel v).mapErr .unexpectedItem) x3 with
+      match tryAsArrayThenConvert (fun v => (sigFromValue v).mapErr .unexpectedItem) x3 with
       | .ok signatures =>
         match vremove a (Gen.CoseSign_removes.getD 1 99) with
         | .ok (x2, a) =>
@@ -95,11 +95,11 @@ def CoseSign.fromValue (fuel : Nat) (v : Value) : Res CoseSign :=
           | .ok payload =>
             match vremove a (Gen.CoseSign_removes.getD 2 99) with
             | .ok (x1, a) =>
-              match Header.fromValue fuel x1 with
+              match hdrFromValue x1 with
               | .ok unprotected =>
                 match vremove a (Gen.CoseSign_removes.getD 3 99) with
                 | .ok (x0, _) =>
-                  match ProtectedHeader.fromBstr fuel x0 with
+                  match phFromBstr x0 with
                   | .ok prot => .ok ⟨prot, unprotected, payload, signatures⟩
                   | .err e => .err e
                   | .panic p => .panic p
@@ -122,14 +122,14 @@ def CoseSign.fromValue (fuel : Nat) (v : Value) : Res CoseSign :=
 
 /-- the shared tail of every message decoder: `unprotected: Header::from_cbor_value(a.remove(i1))?,
     protected: ProtectedHeader::from_cbor_bstr(a.remove(i0))?` -/
-def headersTail (fuel : Nat) (a : List Value) (i1 i0 : Nat) : Res (ProtectedHeader × Header) :=
+def headersTail (a : List Value) (i1 i0 : Nat) : Res (ProtectedHeader × Header) :=
   match vremove a i1 with
   | .ok (x1, a) =>
-    match Header.fromValue fuel x1 with
+    match hdrFromValue x1 with
     | .ok unprotected =>
       match vremove a i0 with
       | .ok (x0, _) =>
-        match ProtectedHeader.fromBstr fuel x0 with
+        match phFromBstr x0 with
         | .ok prot => .ok (prot, unprotected)
         | .err e => .err e
         | .panic p => .panic p
@@ -141,12 +141,12 @@ def headersTail (fuel : Nat) (a : List Value) (i1 i0 : Nat) : Res (ProtectedHead
   | .panic p => .panic p
 
 /-- `payload: match a.remove(i) {…}` followed by the header tail. -/
-def payloadTail (fuel : Nat) (a : List Value) (i2 i1 i0 : Nat) : Res (ProtectedHeader × Header × Option Bytes) :=
+def payloadTail (a : List Value) (i2 i1 i0 : Nat) : Res (ProtectedHeader × Header × Option Bytes) :=
   match vremove a i2 with
   | .ok (x2, a) =>
     match optBytes x2 with
     | .ok payload =>
-      match headersTail fuel a i1 i0 with
+      match headersTail a i1 i0 with
       | .ok (p, u) => .ok (p, u, payload)
       | .err e => .err e
       | .panic p => .panic p
@@ -156,7 +156,7 @@ def payloadTail (fuel : Nat) (a : List Value) (i2 i1 i0 : Nat) : Res (ProtectedH
   | .panic p => .panic p
 
 /-- `CoseSign1::from_cbor_value` -/
-def CoseSign1.fromValue (fuel : Nat) (v : Value) : Res CoseSign1 :=
+def CoseSign1.fromValue (v : Value) : Res CoseSign1 :=
   match tryAsArray v with
   | .ok a =>
     if Gen.CoseSign1_arityBad a.length then .err .unexpectedItem else
@@ -164,7 +164,7 @@ def CoseSign1.fromValue (fuel : Nat) (v : Value) : Res CoseSign1 :=
     | .ok (x3, a) =>
       match tryAsBytes x3 with
       | .ok signature =>
-        match payloadTail fuel a (Gen.CoseSign1_removes.getD 1 99) (Gen.CoseSign1_removes.getD 2 99) (Gen.CoseSign1_removes.getD 3 99) with
+        match payloadTail a (Gen.CoseSign1_removes.getD 1 99) (Gen.CoseSign1_removes.getD 2 99) (Gen.CoseSign1_removes.getD 3 99) with
         | .ok (p, u, payload) => .ok ⟨p, u, payload, signature⟩
         | .err e => .err e
         | .panic p => .panic p
@@ -193,7 +193,7 @@ def CoseRecipient.fromValue : Nat → Value → Res CoseRecipient
                | .panic p => .panic p
              else .ok ([], a)) with
       | .ok (recipients, a) =>
-        match payloadTail fuel a (Gen.CoseRecipient_removes.getD 1 99) (Gen.CoseRecipient_removes.getD 2 99) (Gen.CoseRecipient_removes.getD 3 99) with
+        match payloadTail a (Gen.CoseRecipient_removes.getD 1 99) (Gen.CoseRecipient_removes.getD 2 99) (Gen.CoseRecipient_removes.getD 3 99) with
         | .ok (p, u, ct) => .ok (.mk p u ct recipients)
         | .err e => .err e
         | .panic p => .panic p
@@ -202,16 +202,19 @@ def CoseRecipient.fromValue : Nat → Value → Res CoseRecipient
     | .err e => .err e
     | .panic p => .panic p
 
+/-- nested recipients live inside the `Value`, so the value's size bounds their nesting. -/
+def rcpFromValue (v : Value) : Res CoseRecipient := CoseRecipient.fromValue (v.size + 1) v
+
 /-- `CoseEncrypt::from_cbor_value` -/
-def CoseEncrypt.fromValue (fuel : Nat) (v : Value) : Res CoseEncrypt :=
+def CoseEncrypt.fromValue (v : Value) : Res CoseEncrypt :=
   match tryAsArray v with
   | .ok a =>
     if Gen.CoseEncrypt_arityBad a.length then .err .unexpectedItem else
     match vremove a (Gen.CoseEncrypt_removes.getD 0 99) with
     | .ok (x3, a) =>
-      match tryAsArrayThenConvert (CoseRecipient.fromValue fuel) x3 with
+      match tryAsArrayThenConvert rcpFromValue x3 with
       | .ok recipients =>
-        match payloadTail fuel a (Gen.CoseEncrypt_removes.getD 1 99) (Gen.CoseEncrypt_removes.getD 2 99) (Gen.CoseEncrypt_removes.getD 3 99) with
+        match payloadTail a (Gen.CoseEncrypt_removes.getD 1 99) (Gen.CoseEncrypt_removes.getD 2 99) (Gen.CoseEncrypt_removes.getD 3 99) with
         | .ok (p, u, ct) => .ok ⟨p, u, ct, recipients⟩
         | .err e => .err e
         | .panic p => .panic p
@@ -223,11 +226,11 @@ def CoseEncrypt.fromValue (fuel : Nat) (v : Value) : Res CoseEncrypt :=
   | .panic p => .panic p
 
 /-- `CoseEncrypt0::from_cbor_value` -/
-def CoseEncrypt0.fromValue (fuel : Nat) (v : Value) : Res CoseEncrypt0 :=
+def CoseEncrypt0.fromValue (v : Value) : Res CoseEncrypt0 :=
   match tryAsArray v with
   | .ok a =>
     if Gen.CoseEncrypt0_arityBad a.length then .err .unexpectedItem else
-    match payloadTail fuel a (Gen.CoseEncrypt0_removes.getD 0 99) (Gen.CoseEncrypt0_removes.getD 1 99) (Gen.CoseEncrypt0_removes.getD 2 99) with
+    match payloadTail a (Gen.CoseEncrypt0_removes.getD 0 99) (Gen.CoseEncrypt0_removes.getD 1 99) (Gen.CoseEncrypt0_removes.getD 2 99) with
     | .ok (p, u, ct) => .ok ⟨p, u, ct⟩
     | .err e => .err e
     | .panic p => .panic p
@@ -235,19 +238,19 @@ def CoseEncrypt0.fromValue (fuel : Nat) (v : Value) : Res CoseEncrypt0 :=
   | .panic p => .panic p
 
 /-- `CoseMac::from_cbor_value` -/
-def CoseMac.fromValue (fuel : Nat) (v : Value) : Res CoseMac :=
+def CoseMac.fromValue (v : Value) : Res CoseMac :=
   match tryAsArray v with
   | .ok a =>
     if Gen.CoseMac_arityBad a.length then .err .unexpectedItem else
     match vremove a (Gen.CoseMac_removes.getD 0 99) with
     | .ok (x4, a) =>
-      match tryAsArrayThenConvert (CoseRecipient.fromValue fuel) x4 with
+      match tryAsArrayThenConvert rcpFromValue x4 with
       | .ok recipients =>
         match vremove a (Gen.CoseMac_removes.getD 1 99) with
         | .ok (x3, a) =>
           match tryAsBytes x3 with
           | .ok tag =>
-            match payloadTail fuel a (Gen.CoseMac_removes.getD 2 99) (Gen.CoseMac_removes.getD 3 99) (Gen.CoseMac_removes.getD 4 99) with
+            match payloadTail a (Gen.CoseMac_removes.getD 2 99) (Gen.CoseMac_removes.getD 3 99) (Gen.CoseMac_removes.getD 4 99) with
             | .ok (p, u, payload) => .ok ⟨p, u, payload, tag, recipients⟩
             | .err e => .err e
             | .panic p => .panic p
@@ -263,7 +266,7 @@ def CoseMac.fromValue (fuel : Nat) (v : Value) : Res CoseMac :=
   | .panic p => .panic p
 
 /-- `CoseMac0::from_cbor_value` -/
-def CoseMac0.fromValue (fuel : Nat) (v : Value) : Res CoseMac0 :=
+def CoseMac0.fromValue (v : Value) : Res CoseMac0 :=
   match tryAsArray v with
   | .ok a =>
     if Gen.CoseMac0_arityBad a.length then .err .unexpectedItem else
@@ -271,7 +274,7 @@ def CoseMac0.fromValue (fuel : Nat) (v : Value) : Res CoseMac0 :=
     | .ok (x3, a) =>
       match tryAsBytes x3 with
       | .ok tag =>
-        match payloadTail fuel a (Gen.CoseMac0_removes.getD 1 99) (Gen.CoseMac0_removes.getD 2 99) (Gen.CoseMac0_removes.getD 3 99) with
+        match payloadTail a (Gen.CoseMac0_removes.getD 1 99) (Gen.CoseMac0_removes.getD 2 99) (Gen.CoseMac0_removes.getD 3 99) with
         | .ok (p, u, payload) => .ok ⟨p, u, payload, tag⟩
         | .err e => .err e
         | .panic p => .panic p
